@@ -492,7 +492,7 @@ where
             let token = &ctx.tokens[*token_index];
 
             match token.kind {
-                TokenKind::Function => {
+                TokenKind::Function | TokenKind::Macro => {
                     result = result.append(emit_token_with_trivia(*token_index, ctx, allocator));
                     result = result.append(allocator.space());
                     seen_fn = true;
